@@ -47,12 +47,21 @@ type c04Query struct {
 	Want oracle.Answer `json:"want"`
 	// Hole: the query is sent as AND(E, <empty expression>): structurally incomplete, the library rejects it
 	Hole bool `json:"hole,omitempty"`
+	// HoleKind (with Hole): 0 an operand that is an empty expression message, 1 a NOT without operand below an OR, 2 no
+	// expression at all (the query's expr field is not set)
+	HoleKind int `json:"hole_kind,omitempty"`
 }
 
 // proto renders the query's expression for the wire.
 func (q c04Query) proto() *pb.Query_Expression {
 	if !q.Hole {
 		return q.E.ToProto()
+	}
+	switch q.HoleKind {
+	case 1:
+		return &pb.Query_Expression{Value: &pb.Query_Expression_Or_{Or: &pb.Query_Expression_Or{Exprs: []*pb.Query_Expression{q.E.ToProto(), {Value: &pb.Query_Expression_Not_{Not: &pb.Query_Expression_Not{}}}}}}}
+	case 2:
+		return nil
 	}
 	return &pb.Query_Expression{Value: &pb.Query_Expression_And_{And: &pb.Query_Expression_And{Exprs: []*pb.Query_Expression{q.E.ToProto(), {}}}}}
 }
